@@ -8,6 +8,7 @@ import (
 	"io"
 	"sync"
 	"time"
+	"verifharness/lib"
 
 	"github.com/pkg/sftp"
 
@@ -115,7 +116,7 @@ func (s *Srv) Send(b []byte) error {
 	select {
 	case err := <-errc:
 		return err
-	case <-time.After(20 * time.Second):
+	case <-time.After(lib.HangWait(20 * time.Second)):
 		return ErrTimeout
 	}
 }
@@ -235,7 +236,7 @@ func NewClient(versionFrame []byte, opts ...sftp.ClientOption) (*sftp.Client, *S
 			ss.Shutdown()
 		}
 		return r.c, ss, r.err
-	case <-time.After(20 * time.Second):
+	case <-time.After(lib.HangWait(20 * time.Second)):
 		ss.Shutdown()
 		return nil, ss, ErrTimeout
 	}
@@ -265,7 +266,7 @@ func (s *ScriptedServer) Reply(b []byte) error {
 	select {
 	case err := <-errc:
 		return err
-	case <-time.After(20 * time.Second):
+	case <-time.After(lib.HangWait(20 * time.Second)):
 		return ErrTimeout
 	}
 }
